@@ -2,6 +2,7 @@ package main
 
 import (
 	"fmt"
+	"sync"
 	"go/token"
 	"go/types"
 	"sort"
@@ -70,6 +71,7 @@ type State struct {
 	selects    [][]string
 	hookResult *Val
 	curInstr   ssa.Instruction
+	lastPos    string
 	frontier   Term // allocation frontier: every object existing now is <= frontier + frontN
 	frontN     int
 	pending    map[string]Term     // components havocked before their first use (value: frontier at the time)
@@ -134,6 +136,8 @@ type Ctx struct {
 	retCount int
 	maxPaths int
 	pathSeq  int
+	forkHist map[string]int
+	loopCovers map[int][]*Obligation
 	axioms   []axiomText
 	frame    []frameLoc
 	frameDone bool
@@ -148,6 +152,14 @@ type loopInfo struct {
 	body   map[*ssa.BasicBlock]bool
 	ordinal int
 	allocs []*ssa.Alloc // allocs defined outside the loop and stored inside
+}
+
+var noteMu sync.Mutex
+
+func (c *Ctx) noteLocked(format string, a ...any) {
+	noteMu.Lock()
+	defer noteMu.Unlock()
+	c.note(format, a...)
 }
 
 func (c *Ctx) note(format string, a ...any) {
